@@ -10,6 +10,9 @@ Pipeline (DESIGN.md 2.2 / 7-C15):
      boundary grid, random programs), tools/lin_gen.py judges every intermediate state coefficient-wise with exact
      Fractions (a failure = VIOLATION with the shrunk sequence), and the extracted model (oracle/lin_main.ml) must
      print exactly the same states (a difference with a correct implementation = the model no longer describes lin.cpp).
+  5. printed keys: to_string(rational) / to_string(inf_rational) of the C++ on every value of the run and to_string(lin) on
+     every lin state are compared as strings with the extracted printers of coq/base/ArithStr.v (proved injective on
+     canonical values); two different canonical values printed alike = VIOLATION arith:to_string:collision.
 Regression inputs of the already repaired defects live in corpus/C15/ and are always run first.
 """
 import json
@@ -394,9 +397,9 @@ def prebuild():
 # ------------------------------------------------------------------------------------------------
 # smt::lin: harness, oracle, programs, judge, shrinking
 # ------------------------------------------------------------------------------------------------
-LIN_EXTRACT = ("From Coq Require Import Extraction ExtrOcamlBasic ZArith NArith.\nFrom ORatio Require Import gen.Gen_arith base.Lin.\n"
+LIN_EXTRACT = ("From Coq Require Import Extraction ExtrOcamlBasic ZArith NArith.\nFrom ORatio Require Import gen.Gen_arith base.Lin base.ArithStr.\n"
                "Extraction Language OCaml.\nSet Extraction Optimize.\n"
-               "Extraction \"lin_model.ml\" lop_step lin_ctor lin_ctor_rat lin_ctor_var lin_to_string.\n")
+               "Extraction \"lin_model.ml\" lop_step lin_ctor lin_ctor_rat lin_ctor_var lin_to_string rat_to_string irat_to_string.\n")
 
 
 def build_h_lin():
@@ -404,7 +407,7 @@ def build_h_lin():
 
 
 def build_lin_oracle():
-    return vlib.ocaml_build("lin", ["base/Lin.vo"], LIN_EXTRACT, [("lin_main.ml", None)])
+    return vlib.ocaml_build("lin", ["base/Lin.vo", "base/DecStr.vo", "base/ArithStr.vo"], LIN_EXTRACT, [("lin_main.ml", None)])
 
 
 def lin_domain_prefix(prog):
@@ -564,13 +567,101 @@ def lin_impl_stage(ctx, spec_hits):
     return exe, progs, impl
 
 
-def lin_model_stage(ctx, progs, impl, spec_hits):
+# ------------------------------------------------------------------------------------------------
+# printed values: to_string(rational) / to_string(inf_rational) of the C++ against base/ArithStr.v
+# ------------------------------------------------------------------------------------------------
+def printed_values(cases, impl):
+    """Every rational / inf_rational value that occurs in this run (operands and implementation results) plus a
+    boundary grid; -> sorted lists of 'n/d' and 'n/d,n/d'."""
+    rats, irats = set(), set()
+
+    def add(tok):
+        if "/" not in tok:
+            return
+        if "," in tok:
+            a, b = tok.split(",")
+            irats.add(tok)
+            rats.add(a)
+            rats.add(b)
+        else:
+            rats.add(tok)
+    for (s, a), got in zip(cases, impl):
+        for t in a:
+            add(t)
+        if got and not got.startswith("?"):
+            add(got)
+    grid_r = ["0/1", "1/1", "-1/1", "2/1", "-2/1", "10/1", "-10/1", "1/2", "-1/2", "-7/3", "100/7", "1/0", "-1/0", "1000000/1", "-999999/1000000"]
+    grid_i = ["0/1", "1/1", "-1/1", "2/1", "-2/1", "1/2", "-1/2", "-5/3", "10/1", "1/10", "1/0", "-1/0"]
+    for r in grid_r:
+        rats.add(r)
+        for i in grid_i:
+            irats.add(r + "," + i)
+    return sorted(rats), sorted(irats)
+
+
+def is_icanon(v):
+    """Domain of the injectivity theorem for inf_rational: an infinite rational part comes with a zero infinitesimal part."""
+    r, i = v.split(",")
+    return not r.endswith("/0") or i == "0/1"
+
+
+def print_impl_stage(ctx, exe, cases, impl, spec_hits):
+    """The C++ printers on every value of the run; judge: two different canonical values never get the same text."""
+    rats, irats = printed_values(cases, impl)
+    lines = ["str_rat " + r for r in rats] + ["str_irat " + v for v in irats]
+    r, out = run_lines(exe, lines)
+    if len(out) < len(lines):
+        ctx.violation("arith:to_string:crash", {"kind": "implementation-aborted", "input": lines[min(len(out), len(lines) - 1)], "stderr": r.err[-500:]})
+        spec_hits.append("arith:to_string:crash")
+    seen = {}
+    collisions = 0
+    for ln, txt in zip(lines, out):
+        kind, val = ln.split(" ", 1)
+        if kind == "str_irat" and not is_icanon(val):
+            continue   # printed as the infinity alone whatever the infinitesimal part (C15_..._without_side_condition_refuted)
+        key = (kind, txt)
+        if key in seen and seen[key] != val:
+            collisions += 1
+            sig = "arith:to_string:collision"
+            if sig not in spec_hits:
+                spec_hits.append(sig)
+                ctx.violation(sig, {"kind": "two-canonical-values-printed-alike", "printer": kind, "input": ln, "other_input": kind + " " + seen[key],
+                                    "text": txt, "replay_cmd": "printf '%s\\n%s\\n' '%s' '%s %s' | %s" % ("%s", "%s", ln, kind, seen[key], exe)})
+        seen.setdefault(key, val)
+    ctx.cov["printed_values"] = {"rationals": len(rats), "inf_rationals": len(irats), "collisions_among_canonical_values": collisions,
+                                 "rule": "every operand and implementation result of the arithmetic stage + boundary grid (0, +-1, integers, "
+                                         "fractions, +-inf, every combination of rational part x infinitesimal part)"}
+    return lines, out
+
+
+def print_model_stage(ctx, oexe, lines, impl_out, spec_hits):
+    """The extracted printers of base/ArithStr.v must produce exactly the C++ texts."""
+    r, model = run_lines(oexe, lines)
+    mism = 0
+    for ln, gi, gm in zip(lines, impl_out, model):
+        if gi != gm:
+            mism += 1
+            if mism == 1:
+                which = "to_string_rational" if ln.startswith("str_rat ") else "to_string_inf_rational"
+                ctx.violation("corr:arith:" + which, {"kind": "model-differs-from-implementation",
+                                                     "correspondence": "corr:arith (coq/base/ArithStr.v extracted vs the C++ printer)",
+                                                     "input": ln, "model": gm, "implementation": gi}, no_input=True)
+    ctx.cov["printed_values"]["validated_against_model"] = len(model) - mism
+    ctx.cov["traces_validated_against_impl"] = ctx.cov.get("traces_validated_against_impl", 0) + len(model) - mism
+    ctx.cov["printed_values"]["model_vs_impl_mismatches"] = mism
+    for ln, gi in list(zip(lines, impl_out))[:: max(1, len(lines) // 2)][:2]:
+        ctx.sample({"printed": ln, "implementation": gi})
+
+
+def lin_model_stage(ctx, progs, impl, spec_hits, printed=None):
     """Extracted model of Lin.v against the implementation: exact equality of every printed state."""
     cov = ctx.cov
     oexe, olog = build_lin_oracle()
     if not oexe:
         ctx.violation("build:oracle_lin", {"kind": "oracle-build-failed", "log": olog[-3000:]}, no_input=True)
         return
+    if printed:
+        print_model_stage(ctx, oexe, printed[0], printed[1], spec_hits)
     lines = [lin_gen.prog_line(p) for p in progs]
     r, model = run_lines(oexe, lines)
     mism = 0
@@ -665,6 +756,7 @@ def run(ctx):
 
     # 3c. smt::lin against the exact coefficient-wise specification (before the proofs: it is also the failing-input search)
     lin_exe, lin_progs, lin_impl = lin_impl_stage(ctx, spec_hits)
+    pr_lines, pr_impl = print_impl_stage(ctx, lin_exe, cases, impl, spec_hits) if lin_exe else ([], [])
     cov["evaluations"] += cov.get("lin", {}).get("states_judged_by_exact_spec", 0)
     cov["distinct_nontrivial"] += cov.get("lin", {}).get("distinct_nontrivial_programs", 0)
 
@@ -701,7 +793,7 @@ def run(ctx):
     cov["model_vs_impl_mismatches"] = mism
     # 3d. extracted Lin model vs smt::lin -------------------------------------------------------------
     if lin_exe:
-        lin_model_stage(ctx, lin_progs, lin_impl, spec_hits)
+        lin_model_stage(ctx, lin_progs, lin_impl, spec_hits, printed=(pr_lines, pr_impl))
         cov["traces_validated_against_impl"] += cov["lin"].get("programs_validated_against_model", 0)
     cov["trusted_base"] += ["tools/cxx2gallina.py (clang 14 JSON AST -> Gallina) and tools/arith_tables.py",
                             "python Fractions as the independent exact specification used to judge the implementation's outputs "
